@@ -26,6 +26,14 @@ func runC03(w *World) *Result {
 	r.Rule("R-C03-init", "helper routines give their counters / accumulators a value before updating them from themselves", 2)
 	r.Rule("R-C03-numcmp", "Bash test commands order numbers with -lt/-le/-gt/-ge, never with < or > (text order)", 1)
 	r.Rule("R-C03-scratch", "a helper keeps no state in a non-local variable that a helper it calls assigns", 1)
+	r.Rule("R-C03-wiring", "slice / string operations: name, index, value, bounds and flags reach the Converter parameter they belong to", 10)
+	WiringRule(w, r, "R-C03-wiring", func(m string) bool {
+		switch m {
+		case "SliceAssignment", "SliceEvaluation", "SliceInstantiation", "SliceLen", "StringLen", "StringSubscript", "Copy":
+			return true
+		}
+		return false
+	})
 	r.Rule("R-C03-driver", "slice/string nodes: the driver evaluates each operand once, used, in source order, then calls the converter", 5)
 	ProtoRule(w, r, "R-C03-driver", func(n string) bool {
 		switch n {
